@@ -153,6 +153,16 @@ def run_case(ctx, g, rng):
                 s = rng.choice(WS) + s
         check(ctx, s)
         S.counters["wl:random"] += 1
+    # words: prefixes and references people write (a rule keyed on a particular word is invisible to strings over
+    # one representative per character class)
+    words = ["xml", "xmlns", "XML", "Xml_1", "XMLSchema", "xsd", "rdf", "rdfs", "owl", "http", "https", "urn", "file", "mailto", "doi",
+             "null", "None", "nan", "true", "_", "__", "a.b", "obo", "GO", "chebi", "ncbi.taxon", "x", "xm", "exml", "_xml", "data", "tel"]
+    for _ in range(40):
+        w = rng.choice(words)
+        r = rng.choice(["lang", "1234", "", "/a", "//a", "a b", rng.choice(words), "x:" + rng.choice(words)])
+        for s in (w, w + ":" + r, rng.choice(words) + w, w + rng.choice(["1", ".", "-", "_", ":"])):
+            check(ctx, s)
+            S.counters["wl:word-strings"] += 1
     # long strings (far above any plausible length threshold / recursion limit of a matcher): valid ones, and ones
     # spoilt by a single hostile character at the start, in the middle, at the end
     for _ in range(6):
